@@ -240,6 +240,34 @@ def _resolve_cond(fi, e):
     return e
 
 
+def _expand(fi, e, depth=5):
+    """Copy of ``e`` with locals replaced by what they stand for, anywhere inside the expression: a local with a unique
+    simple definition by that definition, a local bound once in each arm of one if/else by the conditional expression."""
+    import copy as _copy
+
+    def go(x, d):
+        class T(ast.NodeTransformer):
+            def visit_Name(self, nm):
+                if not isinstance(nm.ctx, ast.Load) or d <= 0 or nm.id in fi.params():
+                    return nm
+                r = _resolve_cond(fi, nm)
+                if r is nm or (isinstance(r, ast.Name) and r.id == nm.id):
+                    return nm
+                return go(_copy.deepcopy(r), d - 1)
+
+            def visit_Lambda(self, node):
+                return node
+
+            def visit_GeneratorExp(self, node):
+                return node
+
+            visit_ListComp = visit_GeneratorExp
+
+        return T().visit(x)
+
+    return go(_copy.deepcopy(e), depth)
+
+
 def _through_helper(ck, fi, m, names):
     """If the expression is a call of a same-module function with a single return, continue the analysis inside it:
     returns (context function, returned expression, parameter names mapped into the helper)."""
@@ -356,10 +384,10 @@ def check_signature_fn(ck, fi):
     if len(elems) != 3:
         return
     e_method, e_url, e_params = elems
-    e_method = _resolve(fi, e_method)
+    e_method = _expand(fi, e_method)
     ck.ob("C48.base-string", ofi, e_method, isinstance(e_method, ast.Call) and q.call_attr(e_method) == "upper" and q.receiver(e_method) == p_method, "first component: the HTTP method, upper-cased")
     # URL: every piece is resolved to a component of urlparse(url) (tuple position or attribute), a constant, or unknown
-    u = _resolve(fi, e_url)
+    u = _expand(fi, e_url)
     parts = _flatten_add(u)
     COMP = {"scheme": 0, "netloc": 1, "path": 2, "params": 3, "query": 4, "fragment": 5}
 
@@ -489,7 +517,7 @@ def check_signature_fn(ck, fi):
     ck.ob("C48.key", fi, k, len(kel) == 2, "the key has exactly two parts: consumer secret & token secret (found %d)" % len(kel), construct="key-parts=%d" % len(kel))
     if len(kel) != 2:
         return
-    kel = [_resolve_cond(fi, x) for x in kel]
+    kel = [_expand(fi, x) for x in kel]
     for e, owner, label in ((kel[0], p_cons, "consumer"), (kel[1], p_token, "token")):
         core = _strip_wrappers(e)
         secret_subs = [s for s in ast.walk(core) if isinstance(s, ast.Subscript) and q.dotted(s.value) == owner and q.is_const(s.slice, "secret")]
